@@ -403,6 +403,9 @@ fn gen_int(rng: &mut Rng, signed: bool, bits: usize, out: &mut Vec<bool>) {
 fn gen_value(rng: &mut Rng, prg: &TypedProgram, cs: &HashMap<String, usize>, t: &Type, out: &mut Vec<bool>) {
     match t {
         Type::Bool => out.push(rng.below(2) == 1),
+        // usize values are indices most of the time: half of them small, so that every element of a short array
+        // (also the ones above the largest power of two below the length: round-11 seed C14-r11) is reached
+        Type::Unsigned(garble_lang::token::UnsignedNumType::Usize) if rng.below(2) == 0 => int_bits(rng.below(8) as i128, 32, out),
         Type::Unsigned(u) => gen_int(rng, false, ubits(u), out),
         Type::Signed(s) => gen_int(rng, true, sbits(s), out),
         Type::Array(e, n) => {
